@@ -172,8 +172,15 @@ def run_fpm(p):
         Ax = P.to_fpm_and_back(x, dx, efl, wl, m, fdx, shift=shift, method=method)
         By = P.to_fpm_and_back_backprop(y, dx, wl, efl, m, fdx, method=method, shift=shift)
     gap, lhs, rhs = adj_gap(x, y, Ax, By)
+    extra = ''
+    if p.get('wfmask'):       # documented alternative: the mask as a Wavefront carrying its own spacing
+        By2 = P.to_fpm_and_back_backprop(y, dx, wl, efl, P.Wavefront(m, wl, fdx, 'psf'), None, method=method, shift=shift)
+        same = np.shape(By2) == np.shape(By) and np.array_equal(By2, By)
+        extra = f'; Wavefront mask gives the same result: {same}'
+        if not same:
+            gap = max(gap, 1.0)
     line = f'fpmbp {ps[0]} {ps[1]} {ms[0]} {ms[1]} ' + rw([dx, efl, wl, fdx, shift[0], shift[1]]) + ' ' + cw(m) + ' ' + cw(y)
-    return Result(gap <= TOL_ADJ and By.shape == ps, f'<y,Ax>={lhs:.12g} <By,x>={rhs:.12g} rel gap {gap:.3e}',
+    return Result(gap <= TOL_ADJ and By.shape == ps, f'<y,Ax>={lhs:.12g} <By,x>={rhs:.12g} rel gap {gap:.3e}' + extra,
                   line, By, ps, 'c', nontrivial=max(ps + ms) > 1,
                   tag=f'{"cmask" if p["cmask"] else "rmask"}/{"same" if ps == ms else "othershape"}/{"shift" if any(shift) else "noshift"}')
 
@@ -189,9 +196,16 @@ def run_babinet(p):
     Ax = P.Wavefront(x, wl, dx).babinet(efl, lyot, m, fdx).data
     By = P.Wavefront(y, wl, dx).babinet_backprop(efl, lyot, m, fdx).data
     gap, lhs, rhs = adj_gap(x, y, Ax, By)
+    extra = ''
+    if p.get('wfmask'):
+        By2 = P.Wavefront(y, wl, dx).babinet_backprop(efl, lyot, P.Wavefront(m, wl, fdx, 'psf')).data
+        same = np.shape(By2) == np.shape(By) and np.array_equal(By2, By)
+        extra = f'; Wavefront mask gives the same result: {same}'
+        if not same:
+            gap = max(gap, 1.0)
     L = np.ones(ps) if lyot is None else lyot
     line = f'babbp {ps[0]} {ps[1]} {ms[0]} {ms[1]} ' + rw([dx, efl, wl, fdx]) + ' ' + cw(m) + ' ' + cw(L) + ' ' + cw(y)
-    return Result(gap <= TOL_ADJ and By.shape == ps, f'<y,Ax>={lhs:.12g} <By,x>={rhs:.12g} rel gap {gap:.3e}',
+    return Result(gap <= TOL_ADJ and By.shape == ps, f'<y,Ax>={lhs:.12g} <By,x>={rhs:.12g} rel gap {gap:.3e}' + extra,
                   line, By, ps, 'c', nontrivial=max(ps + ms) > 1,
                   tag=f'{"cmask" if p["cmask"] else "rmask"}/{"same" if ps == ms else "othershape"}/lyot-{p["lyot"]}')
 
@@ -452,7 +466,8 @@ def gen_cases(r, item, k):
             ps = _shape(r, 2, 8)
             ms = list(ps) if i % 3 == 0 else _shape(r, 2, 9)
             fdx = _fdx(r, ps[0], dx, efl, wl)
-            d = {'pshape': ps, 'mshape': ms, 'cmask': bool(i % 2), 'dx': dx, 'efl': efl, 'wavelength': wl, 'fpm_dx': fdx, 'seed': seed}
+            d = {'pshape': ps, 'mshape': ms, 'cmask': bool(i % 2), 'dx': dx, 'efl': efl, 'wavelength': wl, 'fpm_dx': fdx, 'seed': seed,
+                 'wfmask': i % 5 == 3}
             if item == 'fpm':
                 sh = _pick_shift(r)
                 d.update({'shift': [sh[0] * fdx, sh[1] * fdx], 'via': 'wavefront' if i % 4 == 1 else 'func',
